@@ -24,7 +24,7 @@ def run(ctx):
         rule="for every n in 0..%d and weight function in {i+j, negative, +-(2^31-1), 2^40+i-j, 10i+j}: a fault-free run learns the number W of Write "
              "calls, then every position 1..W+1 x {fail (0 bytes+error), short (half+error)} x {transient, permanent} is executed; every Write, every "
              "weights(i,j) call and the result are validated by TspLibTrace.tla (writer model of TspLib.tla; tokens of the accepted bytes, line by "
-             "line, against the LOWER_DIAG_ROW layout). Non-trivial = plans whose fault lies inside the weight section." % (9 if ctx.thorough else 6),
+             "line, against the LOWER_DIAG_ROW layout). Plus fault-free and spot-fault runs for n up to 90 (200 thorough). Non-trivial = plans whose fault lies inside the weight section." % (9 if ctx.thorough else 6),
         samples=["LIB(n=3,w=sum,at=4,kind=fail,perm=false)", "LIB(n=6,w=huge,at=17,kind=short,perm=true)"],
         exhaustive=True, acceptor_stats=st, writes_per_config=meta["writes_per_config"])
     ctx.assumptions += ["whitespace/alignment is not compared (tokens per line only)", "a short count without an error breaks io.Writer's contract and is not in the family"]
